@@ -169,6 +169,9 @@ func runC04Deep(r *Run, rng *Rng, replay string) {
 		} else if dec != nil && dec.ByteSize != len(buf) {
 			// the encoding occupies len(buf) bytes (one shared literal dword at most)
 			r.Failf("C04.roundtrip."+fm, c04DeepLine("inst", fm, op, f, lit), "size %d, but the instruction was encoded in %d bytes (%s)", dec.ByteSize, len(buf), hexb(buf))
+		} else if dec != nil && fm == "vop1" && op == 2 && !operandMatchesCode(dec.Dst, f["vdst"]) {
+			// v_readfirstlane_b32 writes a SCALAR destination: the VDST field is a scalar operand code
+			r.Failf("C04.roundtrip.vop1", c04DeepLine("inst", fm, op, f, lit), "destination code %d decoded as %s", f["vdst"], opndStr(dec.Dst))
 		} else if dec != nil {
 			// decode(b) = decode(b[:size]): bytes behind the instruction are never read
 			if out2, _ := decodeCanon(dis, buf); out2 != out {
